@@ -563,6 +563,12 @@ impl<C: CrcCalculator> Encapsulator<C> {
                 pdu_len_encapsulated = pdu_len_available;
             }
 
+            // only the crc remains and it does not fit: an intermediate fragment
+            // without payload is refused by the decapsulator, ask for a bigger buffer
+            if pdu_len_encapsulated == 0 {
+                return Err(EncapError::ErrorSizeBuffer);
+            }
+
             header = generate_gse_header(
                 &PktType::IntermediateFragPkt,
                 &LabelType::ReUse,
@@ -964,6 +970,11 @@ pub fn encap_frag_preview(
         } else {
             gse_len = FRAG_ID_LEN + pdu_len_available;
             pdu_len_encapsulated = pdu_len_available;
+        }
+
+        // only the crc remains and it does not fit
+        if pdu_len_encapsulated == 0 {
+            return Err(EncapError::ErrorSizeBuffer);
         }
 
         let buffer_offset = FIXED_HEADER_LEN + gse_len;
